@@ -7,7 +7,7 @@ PATCH="$(readlink -f "$1")"; IDS="$2"; shift 2
 HERE="$(cd "$(dirname "$0")/.." && pwd)"
 WT="$(mktemp -d /tmp/trypatch_XXXXXX)"
 rmdir "$WT"
-git -C /repo worktree add -q --detach "$WT" HEAD || exit 2
+git -C /repo worktree add -q --detach "$WT" "${SEED_BASE:-HEAD}" || exit 2
 if ! git -C "$WT" apply "$PATCH"; then echo "PATCH DOES NOT APPLY"; git -C /repo worktree remove --force "$WT"; exit 2; fi
 rc=0
 for id in $(echo "$IDS" | tr ',' ' '); do
